@@ -235,6 +235,7 @@ func GenLayout(t *rapid.T, nRev int) Layout {
 	l.LengthInObjStm = b("lengthInObjStm")
 	l.Split = rapid.IntRange(1, 3).Draw(t, "split")
 	l.SplitTight = b("splitTight")
+	l.EmptyPart = rapid.IntRange(0, 3).Draw(t, "emptyPart") == 0
 	l.ContentsIndirect = b("contentsIndirect")
 	l.Pad = rapid.SampledFrom([]int{0, 0, 0, 3000, 4200, 9000, 20000}).Draw(t, "pad")
 	l.Depth = rapid.IntRange(1, 4).Draw(t, "depth")
@@ -286,6 +287,9 @@ func (l Layout) Knobs(nRev int) []string {
 	}
 	if l.Length == "before" || l.Length == "after" {
 		k = append(k, "indirect-length")
+	}
+	if l.EmptyPart {
+		k = append(k, "empty-part")
 	}
 	if l.Split > 1 {
 		k = append(k, "split")
